@@ -1402,7 +1402,7 @@ class SyncState:  # pylint: disable=too-many-instance-attributes, too-many-publi
         if ent[side].hash != info.hash:
             ent[side].hash = info.hash
             if ent.ignored == IgnoreReason.NONE and not ent[side].changed:
-                ent[side].changed = time.time()
+                self.mark_changed(side, ent)
 
         # if it's corrupt, then "exists" won't actually change to the new value
         # set the exists after setting the hash, since that can clear the corrupt flag
@@ -1422,7 +1422,7 @@ class SyncState:  # pylint: disable=too-many-instance-attributes, too-many-publi
         if ent[side].path != new_path:
             ent[side].path = new_path
             if ent.ignored == IgnoreReason.NONE and not ent[side].changed:
-                ent[side].changed = time.time()
+                self.mark_changed(side, ent)
 
         ent[side].size = info.size
         ent[side].mtime = info.mtime
